@@ -64,7 +64,7 @@ def gen_db(rng, tier, seed):
         pushes.insert(rng.randrange(len(pushes) + 1), ['indicate_subscribers', pick, 0, 0, rng.choice([-1, 0, 1, 2])])
     return {'db': db, 'client_mtu': cm, 'server_mtu': sm, 'exchange': rng.random() < 0.8, 'nclients': nclients, 'eatt': eatt,
             'eatt_mtu': [rng.choice([64, 100, 247]), rng.choice([64, 100, 247])], 'subs': subs, 'pushes': pushes,
-            'writes': rng.randint(0, 4), 'profile': rng.choice(PROFILE_NAMES), '_lists': ['subs', 'pushes'],
+            'writes': rng.randint(0, 4), 'profile': rng.choice(PROFILE_NAMES), '_lists': ['subs', 'pushes'], 'passerby': rng.random() < 0.3,
             # the application notifies the current state as soon as somebody subscribes; the first long read races the MTU exchange
             'push_on_subscribe': rng.random() < 0.3, 'mtu_race': rng.random() < 0.3}
 
@@ -76,7 +76,7 @@ def run_db(case):
     sim = Sim(case['seed'], case.get('profile', 'zero'), slow_node='N1')
     try:
         n = 1 + case['nclients']
-        world = World(sim, n + (0 if n > 2 else 0))
+        world = World(sim, n + (1 if case.get('passerby') else 0))
         srv_node = world[1]
         srv = srv_node.device
         before = len(srv.gatt_server.attributes)
@@ -248,6 +248,15 @@ def run_db(case):
                     sim.probe('notification_sent_on_subscription')
                     if b'hello'[:b['mtu'] - 3] not in fired[(bi, vh)]:
                         sim.violation_once('sub-hello', f'notification-right-after-subscription-lost:{b["kind"]}', f'{b["name"]}: the server notified as soon as the CCCD was written; the subscriber got {fired[(bi, vh)]}')
+            if case.get('passerby'):
+                # another client comes and goes before anything is pushed: its disconnection must leave the others' delivery alone
+                try:
+                    pa, _ps = world.connect_le(n, 1)
+                    sim.run(pa.disconnect(), 30.0)
+                    sim.loop.settle(vt_budget=2.0)
+                    sim.probe('another_client_came_and_went_before_the_pushes')
+                except HarnessError:
+                    pass
             # wire tap on the server: confirmations seen
             conf = {'n': 0}
             L2capTap(sim, srv_node, lambda d, h, cid, p: conf.__setitem__('n', conf['n'] + 1) if d == 'in' and ((cid == 4 and p[:1] == b'\x1e') or (cid >= 0x40 and p[2:3] == b'\x1e' and len(p) == 3)) else None)
